@@ -17,5 +17,7 @@ PYEOF
 /venv/bin/python lib/gen_all.py
 cd coq
 coq_makefile -f _CoqProject -o Makefile
-timeout 3000 make -j 12
+# -k: a file of one property that does not build must not stop the others;
+# the per-property checks report it
+timeout 3000 make -k -j 12 || echo "setup: some Coq files did not build (reported by the checks that need them)"
 echo "setup ok"
